@@ -23,11 +23,11 @@ ATOMS: List[A.Atom] = [
     ["txn Fee", "int 1000", "<="],
     ["global GroupSize", "int 2", "=="],
     ["txn TypeEnum", "int pay", "=="],
+    ["txn TypeEnum", "int 6", "=="],
     ["txn OnCompletion", "int 4", "!="],
     ["int NoOp", "txn OnCompletion", "=="],
     ["txn GroupIndex", "int 1", "<"],
     ["int 272000", "txn Fee", ">="],
-    ["txn TypeEnum", "int 6", "=="],
     ["gtxn 1 RekeyTo", Z, "=="],
 ]
 
@@ -35,7 +35,7 @@ ATOMS: List[A.Atom] = [
 def items(tier: str) -> List[Any]:
     out: List[Any] = []
     sizes = (1, 2) if tier == "quick" else (1, 2, 3)
-    alpha = ATOMS[:8] if tier == "quick" else ATOMS
+    alpha = ATOMS[:9] if tier == "quick" else ATOMS
     for nsubs in (0, 1, 2):
         o = core.Opts(cond_level=0, nsubs=nsubs, kinds=("assert", "ret", "ret1", "err", "if", "while", "call"))
         for size in sizes if nsubs < 2 else (2, 3):
